@@ -161,7 +161,7 @@ end
 
 /-- parse a whole SEN text: one value, then only white space and commas -/
 def parseSenChars (cs : List Char) : Except PErr J :=
-  match parseSenValue (cs.length + 1) cs with
+  match parseSenValue (2 * cs.length + 1) cs with
   | .ok (j, rest) => if (skipSep rest).isEmpty then .ok j else .error .trailing
   | .error e => .error e
 
